@@ -1086,6 +1086,13 @@ class FunctionEnergyFluxProfile(
 
         self.function = function
 
+    @property
+    def math_function_str(self):
+        """(read-only) The string representation of the mathematical function of
+        this energy flux profile instance.
+        """
+        return 'f(E)'
+
     def __call__(
             self,
             E,
